@@ -32,7 +32,7 @@ DRAWN_2Q = {"CPhase": "BlockTwoQubitGate", "VirtualTwoQubitVacant": "BlockTwoQub
 RULE = ("Hypothesis cases {program, order, labels, compact, outer, unroll, observe_first}: build programs (<= 7 items per "
         "circuit, nesting <= 2, 4 qubits, <= 40 unrolled operations, explicit relations of all three types on ~35 % of the "
         "items, repetition counts 1..3, fixed/registry durations from {0,.25,.5,1,1.5,2,3,7}) over the 23 drawable kinds "
-        "(part drawable) or all 26 kinds (part any_kind); channel order = none | a permutation | a proper prefix of a "
+        "(part drawable), mostly two-qubit gates (part two_qubit_dense) or all 26 kinds (part any_kind); channel order = none | a permutation | a proper prefix of a "
         "permutation | [] of the occupied channel ids (constructed from the program), in part unknown_channel with one "
         "unoccupied id inserted; label map = none | labels for a drawn subset of the occupied ids, sometimes plus an "
         "unoccupied key; compact on/off; outer global durations = none | four positive dyadic values (so != the drawing's "
@@ -125,6 +125,14 @@ def case_strategy(kinds, unknown: bool):
 
 def strat_drawable():
     return case_strategy(DRAWABLE, False)
+
+
+TWO_QUBIT_DENSE = ["CPhase", "CPhase", "CPhase", "VirtualTwoQubitVacant", "Rx180", "Wait", "Reset", "DispersiveMeasure"]
+
+
+def strat_two_qubit_dense():
+    """Mostly two-qubit gates on four qubits: several of them share a start time, in any listing order."""
+    return case_strategy(TWO_QUBIT_DENSE, False)
 
 
 def strat_any_kind():
@@ -682,6 +690,7 @@ def body_library(case, ctx):
 def parts():
     return [
         Part("drawable", body, strategy=strat_drawable, quick=600, thorough=1500),
+        Part("two_qubit_dense", body, strategy=strat_two_qubit_dense, quick=200, thorough=600),
         Part("any_kind", body, strategy=strat_any_kind, quick=150, thorough=400),
         Part("unknown_channel", body_unknown, strategy=strat_unknown, quick=150, thorough=300),
         Part("library", body_library, items=items_library),
